@@ -18,16 +18,19 @@ Canceled == 1  Unknown == 2  DeadlineExceeded == 4  Internal == 13  Unavailable 
 Restricted == {3, 5, 6, 9, 10, 11, 15}
 
 ControlPlane == {"picker", "configsel", "creds_dial", "creds_call"}
-Sources == ControlPlane \cup {"dialer", "marshal", "unmarshal", "handler", "context"}
+Sources == ControlPlane \cup {"dialer", "marshal", "unmarshal", "handler", "context", "transport"}
 \* kinds of error value: a plain error, a status error with code c, an error wrapping (%w) a status
 \* error with code c, context.Canceled, context.DeadlineExceeded, io.ErrUnexpectedEOF; for the
 \* "context" source: the RPC's context is cancelled / past its deadline before or during the RPC
 ValueKinds == {[k |-> "plain", c |-> 0], [k |-> "canceled", c |-> 0], [k |-> "deadline", c |-> 0], [k |-> "eof", c |-> 0]}
                 \cup [k : {"status", "wrapped"}, c : Codes]
 CtxKinds == [k : {"cancel_before", "cancel_during", "deadline_before", "deadline_during"}, c : {0}]
+\* for the "transport" source: the connection is closed under the RPC by either end
+TrKinds == [k : {"client_conn_closed", "server_conn_closed"}, c : {0}]
 Apis == {"unary", "stream"}
-Cases == {x \in [src : Sources, kind : ValueKinds \cup CtxKinds, api : Apis] :
-            (x.src = "context") <=> (x.kind \in CtxKinds)}
+Cases == {x \in [src : Sources, kind : ValueKinds \cup CtxKinds \cup TrKinds, api : Apis] :
+            /\ (x.src = "context") <=> (x.kind \in CtxKinds)
+            /\ (x.src = "transport") <=> (x.kind \in TrKinds)}
 
 IsStatus(kd) == kd.k \in {"status", "wrapped"}
 A54(c) == IF c \in Restricted /\ Mutant # 1 THEN Internal ELSE c      \* Mutant 1: codes pass through
@@ -48,6 +51,7 @@ Ref(x) ==
     [] x.src = "handler"    -> IF IsStatus(kd) THEN {kd.c}
                                ELSE CASE kd.k = "canceled" -> {Canceled} [] kd.k = "deadline" -> {DeadlineExceeded}
                                       [] OTHER -> {Unknown}
+    [] x.src = "transport"  -> {Unavailable}
     [] x.src = "context"    -> IF kd.k \in {"cancel_before", "cancel_during"} THEN {Canceled} ELSE {DeadlineExceeded}
 
 (***************************************************************************)
